@@ -113,12 +113,19 @@ def exh_history(idx):
 
 
 def gen_api(rng):
-    key = rng.choice([('p', 1), ('p', 1), ('p', 2), ('tok', 0)])
+    key = rng.choice([('p', 1), ('p', 1), ('p', 2), ('p', 2), ('p', 3), ('tok', 0)])
     name, n = key
     hist = []
     c = {'api_histories': 1}
+    # keyed tables: the first argument is one of two atoms, calls bind it, and what happens meanwhile is mostly
+    # assertz of further facts under the same key (whatever per-key structure exists gets extended while in use)
+    keyed = n >= 2 and rng.random() < 0.6
+    if keyed:
+        c['keyed_tables'] = 1
 
     def fact():
+        if keyed:
+            return C(name, A(rng.choice(['ka', 'ka', 'kb'])), *[rng.choice(VALS) for _ in range(n - 1)])
         return C(name, *[rng.choice(VALS) for _ in range(n)]) if n else A(name)
     big = rng.random() < 0.15
     live = []
@@ -145,7 +152,9 @@ def gen_api(rng):
         if started < nenum and (not open_ or r < 0.2):
             vi += 1
             args = [V('E%d_%d' % (vi, i)) if rng.random() < 0.8 else rng.choice(VALS) for i in range(n)]
-            if rng.random() < 0.5:
+            if keyed and rng.random() < 0.85:
+                args[0] = A(rng.choice(['ka', 'ka', 'kb']))
+            if rng.random() < (0.8 if keyed else 0.5):
                 hist.append(('start', vi, name, args))
                 c['query_enumerations'] = c.get('query_enumerations', 0) + 1
             else:
@@ -179,8 +188,10 @@ def gen_api(rng):
                 mods += 1
         else:
             m = rng.random()
+            if keyed and m < 0.8:
+                m = 0.0
             if m < 0.35:
-                hist.append(('assert_fact', fact(), rng.random() < 0.6))
+                hist.append(('assert_fact', fact(), rng.random() < (0.9 if keyed else 0.6)))
             elif m < 0.55:
                 hist.append(('run', rng.choice(['assertz', 'asserta']), [fact()], None))
             elif m < 0.8:
